@@ -137,3 +137,50 @@ Definition server_entry (now : Z) (sid addr tag : str) (key : option key_info)
      e_policy := Some {| p_authenticated := Some authenticated; p_user := user; p_valid := valid;
                          p_authmethods := None; p_crypto := None; p_client_side := None |};
      e_exp := Some (now + dur); e_lease := lease |}.
+
+(* ---- server/server.go ServeConn: dispatch of the command a handshake named -------------
+   After the handshake (here: a resumption) returned a negotiation, the dispatching server
+   looks the command up (s.handlers), refuses it when there is no authenticated handler
+   (unregistered, or registered as a raw command only), re-checks the session against the
+   command's CURRENT security level (commandLevelSatisfied) and the Authorizer
+   (sessionSatisfies), and only then runs the handler.  None of the refusal paths touches a
+   session cache or the negotiation: serve_conn's state is handle_resumption's, by construction.
+
+   Go                                       Gallina
+   Server.handlers / lookup                 d_handler : Z -> hkind
+   SecurityConfigForCommand(c).Authentication = REQUIRED            d_auth_required
+   ... .Encryption or .Integrity = REQUIRED                         d_enc_required
+   Server.Authorizer(perm, peerAddr, user)  d_authorizer (the peer address is not modelled)
+   commandLevelSatisfied / sessionSatisfies command_level_satisfied / dispatch
+   ServeConn (DC_AUTHENTICATE branch, first command)                serve_conn *)
+Inductive hkind := HNone | HRaw | HAuth (perms : list str).
+Record dsrv := {
+  d_handler : Z -> hkind;
+  d_auth_required : Z -> bool;
+  d_enc_required : Z -> bool;
+  d_authorizer : option (str -> option str -> bool)
+}.
+Inductive dres :=
+| DServed            (* the handler runs *)
+| DNoHandler         (* "no authenticated handler for command" *)
+| DLevel             (* the session does not meet the command's security level *)
+| DNotAuthorized.    (* the identity is not authorized under the current policy *)
+
+Definition command_level_satisfied (d : dsrv) (cmd : Z) (authd enc : bool) : bool :=
+  negb (d_auth_required d cmd && negb authd) && negb (d_enc_required d cmd && negb enc).
+
+Definition dispatch (d : dsrv) (n : sneg) : dres :=
+  match d_handler d (n_command n) with
+  | HNone | HRaw => DNoHandler
+  | HAuth perms =>
+      if negb (command_level_satisfied d (n_command n) (n_authentication n) (n_encryption n)) then DLevel
+      else match d_authorizer d with
+           | None => DServed
+           | Some az => if existsb (fun p => az p (n_user n)) perms then DServed else DNotAuthorized
+           end
+  end.
+
+Definition serve_conn (d : dsrv) (s : srv) (now : Z) (q : request) (wire_cmd : Z)
+  : srv * reply * sres * option dres :=
+  let '(s', rep, res) := handle_resumption s now q wire_cmd in
+  (s', rep, res, match res with SOk n _ => Some (dispatch d n) | SErr => None end).
